@@ -162,9 +162,11 @@ def gen_scenario(seed, tier="quick"):
     rng = random.Random(seed)
     hs_run = rng.random() < 0.15
     opts = {"nr_max": 12, "nrho_max": 6, "max_species": 4, "forms_prob": 0.75, "tables_prob": 0.15, "species_override_prob": 0.35}
-    if hs_run:
+    if hs_run and rng.random() < 0.7:
         opts.update({"targets": mg.EAM_TARGETS + mg.FS_TARGETS + mg.ADP_TARGETS + ["setfl", "setfl_fs", "DL_POLY_EAM_fs"],
-                     "underspecified_prob": 0.9, "max_species": 4})
+                     "underspecified_prob": 0.9, "max_species": 4, "min_species": 2})
+    elif hs_run:
+        opts.update({"max_species": 4, "min_species": 3, "min_functions": 4})
     base = mg.gen_model(rng, opts)
     models = [base]
     nmodels = rng.choice([1, 2, 2, 3])
